@@ -252,6 +252,7 @@ if __name__ == "__main__":
         sys.exit(2)
     old = open(out).read() if os.path.exists(out) else None
     if old != text:
+        os.makedirs(os.path.dirname(out), exist_ok=True)
         open(out, "w").write(text)
     if "--print" in sys.argv:
         for k, v in values.items():
